@@ -62,6 +62,13 @@ def run_dm(ctx):
             for style in range((3 if cap > 100 else 8) if ctx.quick else 12):   # floor(ec/2) faults in every block at once
                 sets.append(mkset(m, full(rng, m, style % 3)))
             sets.append(mkset(m, full(rng, m, 2, extra=rng.randint(1, len(m["blocks"])))))   # one beyond capacity: error or right text
+            if rep == 0 and m["cap"] >= 2:      # damage within capacity aimed at decoder shortcuts (gfaim), in one block
+                import gfaim
+                b = rng.randint(1, len(m["blocks"]))
+                nb = len(m["blocks"][b - 1])
+                r = (sum(len(ix) for ix in m["blocks"]) - cap) // len(m["blocks"])
+                for _, errs in gfaim.patterns(2, 256, 1, nb, r, rng):
+                    sets.append(mkset(m, [(b, p + 1, x) for p, x in errs]))
             ev.append(dict(op="dmg", text=text, utf=0, shape=shape, mn=[w, h], mx=[w, h], size=i, sets=sets, tag="blocks"))
     obs = dmlib.judge(ctx, ev, "C05 Data Matrix damage")
     ctx.extra["dm_fault_scripts"] = sum(len(o.get("sets", ())) for o in obs)
